@@ -53,7 +53,34 @@ def install_sim_addresses(seed, mode="random"):
         return a
 
     ModelPtr.__hash__ = sim_hash
+    install_sim_id(seed)
     return True
+
+
+def install_sim_id(seed):
+    """`id` seam: every module of the package gets a module-global `id` that returns a seeded pseudo-address per
+    object (stable for the lifetime of the job, never re-used).  Code that orders or keys things by id() therefore sees
+    a different - but legal - memory layout in every real worker, instead of the nearly identical allocation order of
+    identical processes."""
+    import sys
+    rng = random.Random(seed ^ 0x5EED1D)
+    table = {}
+    keep = []
+
+    def sim_id(obj):
+        k = builtins_id(obj)
+        v = table.get(k)
+        if v is None:
+            v = table[k] = 0x7E0000000000 + (rng.getrandbits(34) << 4)
+            keep.append(obj)  # keep the object alive: its real address must not be re-used under the same key
+        return v
+
+    import builtins
+    builtins_id = builtins.id
+    for name, mod in list(sys.modules.items()):
+        if (name == "json_to_models" or name.startswith("json_to_models.")) and mod is not None \
+                and "id" not in vars(mod):
+            mod.id = sim_id
 
 
 def job_real(args):
